@@ -131,7 +131,7 @@ fn regs_str(regs: &[Reg]) -> String {
 }
 
 /// the documented protocol: register until the first error, build, decode exactly the registered items
-fn run_builder_case(regs: &[Reg], b: &[u8]) -> Result<Result<Vec<Vec<u8>>, DecodeError>, ()> {
+pub fn run_builder_case(regs: &[Reg], b: &[u8]) -> Result<Result<Vec<Vec<u8>>, DecodeError>, ()> {
     catch_unwind(AssertUnwindSafe(|| {
         let mut builder = SszDecoderBuilder::new(b);
         for r in regs {
